@@ -345,7 +345,10 @@ def r4(ctx, R):
             outer = [c for c in reps if c.args[0].value == '"""'][0]
             ok = any(x is inner for x in ast.walk(outer.func)) or (
                 inner.lineno, inner.col_offset) < (outer.lineno, outer.col_offset) and not any(x is outer for x in ast.walk(inner.func))
-        if not ok or not q.calls(qd, name="endswith"):
+        trailing = bool(q.calls(qd, name="endswith")) or any(
+            isinstance(n_, ast.Compare) and isinstance(n_.left, ast.Subscript) and "-1" in norm(n_.left.slice)
+            and isinstance(n_.comparators[0], ast.Constant) and n_.comparators[0].value == '"' for n_ in walk_local(qd.node))
+        if not ok or not trailing:
             R.bad(qd, qd.node, "quote_doc does not escape backslashes first, then the delimiter, then a trailing quote",
                   stmt="quote_doc body")
     dp = ctx.func(S6 + ":DocstringParser.get_instruction")
